@@ -44,6 +44,15 @@ class C01(Check):
         return bincase.binary_cases(self.feat)
 
     def fixed_cases(self, tier):
+        # hints are full names: a namespaced branch that shares its unqualified name with a later null-namespace branch
+        # must not capture the hint meant for the latter (records, enums, fixed; raw and parsed)
+        pts = [{"type": "record", "name": "v1.Point", "fields": [{"name": "x", "type": "int"}, {"name": "y", "type": "int"}]},
+               {"type": "record", "name": "Point", "fields": [{"name": "x", "type": "int"}, {"name": "y", "type": "int"}, {"name": "z", "type": "int", "default": 0}]}]
+        ens = ["null", {"type": "enum", "name": "ns.Level", "symbols": ["LOW", "HIGH"]}, {"type": "enum", "name": "Level", "symbols": ["HIGH", "LOW"]},
+               {"type": "fixed", "name": "deep.ns.Id", "size": 2}, {"type": "fixed", "name": "Id", "size": 2}]
+        for parsed in (False, True):
+            yield {"schema": pts, "data": [("Point", {"x": 1, "y": 2, "z": 3}), ("v1.Point", {"x": 4, "y": 5}), ("Point", {"x": 6, "y": 7})], "parsed": parsed}
+            yield {"schema": {"type": "array", "items": ens}, "data": [[("Level", "HIGH"), ("ns.Level", "HIGH"), ("Id", b"ab"), ("deep.ns.Id", b"cd"), None, ("Level", "LOW")]], "parsed": parsed}
         vals = set()
         for k in range(0, 64):
             for s in (1, -1):
